@@ -6,7 +6,7 @@ From Osmo Require Import Base.DecModel CL.CLPool CL.CLSwap CL.CLStep CLR.Accum C
   C08.Proj C08.Telescope C08.View C08.Static C08.Ops C08.OpInside C08.SwapTrace C08.Crux C08.Check
   C08.Claim C08.Conseq C08.Frame C08.Never C08.SwapWf C08.Dom C08.StaticOk C08.Final
   C07.Base C08.Paid C08.PaidOps C08.PaidSwap C08.PaidHist C08.Modify C08.Twins
-  C08.IncAcc C08.Inc C08.IncList C08.IncStage C08.IncOps C08.IncSwap C08.IncHist C08.UpNever C08.UpTwins.
+  C08.IncAcc C08.Inc C08.IncList C08.IncStage C08.IncOps C08.IncSwap C08.IncHist C08.UpNever C08.UpTwins C08.ClaimOk C08.ClaimInv.
 Open Scope Z_scope.
 
 (* ---- the reward model extends the shared pool model conservatively ---- *)
@@ -517,4 +517,43 @@ Proof.
   { intro u. do 6 (destruct u as [|u]; [vm_compute; reflexivity|]). vm_compute. destruct u; reflexivity. }
   split; [reflexivity|]. split; [reflexivity|].
   eexists. split; [vm_compute; reflexivity|]. split; [vm_compute; reflexivity|]. split; vm_compute; reflexivity.
+Qed.
+
+(* ==== CLAIM QUERIES NEVER FAIL (spread rewards): reduced to the LegacyDec range ==== *)
+(* forward direction of the claim: prepareClaimableSpreadRewards returns a result as soon as the sign conditions (trackers in
+   [0, accumulator value], snapshot in [- accumulator value, growth inside], nothing unclaimed negative) and the range conditions
+   (3 x accumulator value + 1 <= LegacyDec limit, unclaimed + 2 x value x shares + 1 within the limit, scaling factor >= 1) hold *)
+Theorem C08_prepare_claimable_spread_ok : forall w sc cur l u id r, acc_get (rw_spread w) id = Some r ->
+  spread_claim_ok w sc cur l u r -> exists w' c, prepare_claimable_spread w sc cur l u id = Some (w', c).
+Proof. exact prepare_claimable_spread_ok. Qed.
+Print Assumptions C08_prepare_claimable_spread_ok.
+
+(* the sign conditions are invariants: in every reachable state every stored growth-outside tracker of the spread accumulator lies in
+   [0, accumulator value], and for every open position the snapshot of its record lies in [- accumulator value, growth inside its range]
+   and nothing unclaimed is negative - "negative coin amount" cannot happen on the claim path *)
+Theorem C08_spread_sign_conditions_reachable : forall sp spf ssc isc users t ops, 0 < sp -> 0 <= spf <= 500000000000000000 -> 0 < ssc ->
+  let rs := rrun (rinit sp spf ssc isc users t) ops in
+  TBv (r_rw rs) /\ forall id l u, livep (r_base rs) id l u -> srec (r_rw rs) (cur_tick rs) id l u.
+Proof.
+  intros sp spf ssc isc users t ops Hsp Hspf Hsc rs.
+  destruct (CI_run ops _ (CI_init sp spf ssc isc users t Hsp Hspf) Hsc) as [[_ [A B]] _]. split; assumption.
+Qed.
+Print Assumptions C08_spread_sign_conditions_reachable.
+
+(* hence the spread-reward claim query of an open position can only fail by LegacyDec overflow.  PARTIAL: the range condition
+   [spread_range_ok] (3 x accumulator value + 10^36 <= 2^256 10^18 - 1 and unclaimed x 10^18 + 2 x value x liquidity + 10^18 within the
+   limit x 10^18, per denomination) remains as the explicit arithmetic hypothesis; incentives are not covered *)
+Theorem C08_spread_claim_succeeds_partial : forall sp spf ssc isc users t ops p, 0 < sp -> 0 <= spf <= 500000000000000000 -> P18 <= ssc ->
+  let rs := rrun (rinit sp spf ssc isc users t) ops in
+  In p (s_pos (r_base rs)) -> spread_range_ok rs p -> exists c, claimable_spread rs (ps_id p) = Some c.
+Proof. exact claimable_spread_succeeds_reachable. Qed.
+Print Assumptions C08_spread_claim_succeeds_partial.
+
+(* the range condition holds for both positions of the example state *)
+Example C08_spread_range_nonvacuous : forall p, In p (s_pos (r_base (rrun ex_rs2 ex_ops2))) -> spread_range_ok (rrun ex_rs2 ex_ops2) p.
+Proof.
+  assert (E : exists rs, rs = rrun ex_rs2 ex_ops2) by (eexists; reflexivity). destruct E as [rs E].
+  rewrite <- E. vm_compute in E. subst rs. intros p HIn. cbn [r_base s_pos] in HIn.
+  repeat (destruct HIn as [HIn|HIn]; [subst p; intros r R; vm_compute in R; inversion R; subst r; intros [|]; split; vm_compute; discriminate|]).
+  destruct HIn.
 Qed.
